@@ -341,6 +341,9 @@ func c13ReopenHistory(ev *vlib.Evidence, idx int) {
 	dir, _ := os.MkdirTemp("", "verif-c13r-")
 	defer os.RemoveAll(dir)
 	alpha := vlib.DefaultAlphabet()
+	if idx%2 == 1 {
+		alpha = vlib.RealisticAlphabet() // production-style ids (they end up in the on-disk keys)
+	}
 	alpha.Ages = []int{0, 60} // reopen takes time: stay well inside the window
 	ops := make([]vlib.StoreOp, 8+r.Intn(25))
 	for i := range ops {
